@@ -241,6 +241,33 @@ CHECKS = {
         "is only 'not refuted'. Residual: const_inequality still certifies comparisons of irrational constants by floats (not judged).",
         "TLA+ semantics of HOL arithmetic with exact rationals + input-space machine, TLC; vector replay into check_proof, trace validation",
         "6/C05"),
+ "C06": ("model_checking",
+        "TLC model-checks spec/C06_Bridge.tla: a machine over the input space of the solver bridge (Negate / Quantify / Combine build every goal "
+        "with <= 3 (quick) / 4 (thorough) connectives over two variables at nat, int and nat-through-of_nat, binders in positive and negative "
+        "positions); invariants check the reference oracle of spec/C06_Sem.tla (HOL meaning with exact arithmetic, truncated nat minus, x/0=0; "
+        "witness bound B vs 2B, monotone in the domain bound, the intended nat->int relativisation is faithful, anchors). Every goal is replayed "
+        "through z3wrapper.solve / Z3Macro / the proof checker, plus deterministic families and seeded random goals, and polynomial / rational / "
+        "interval goals through sympywrapper; TLC evaluates accepted => ~Refuted(goal | prems) on every event (C06_BridgeTrace).",
+        "Refutation over finite sub-domains only (nat 0..2, int -2..2, 9 rational points, |'a|<=2); existentially-effective binders decided only "
+        "for difference-logic bodies with the witness bound argued in C06_Sem.tla and checked by TLC on the universe; transcendental goals and "
+        "functions over numbers are recorded but not judged (TLA+ has no reals). Trusted: TLC/SANY, lib/Rat.tla, the projection in the driver.",
+        "TLA+ semantics + input-space machine model-checked by TLC; vectors replayed into the real bridge; trace validation of accepted goals",
+        "6/C06"),
+ "C10": ("model_checking",
+        "TLC model-checks spec/C10_Rearr.tla, the rearrangement machine: state = an arithmetic expression over nat / the ring types or a "
+        "conjunction / disjunction / negated formula; actions Comm, Assoc, Distrib, Factor, AddZero, MulOne, FoldNum, SucPlus, SubNeg, NegMul, "
+        "PowFold, Dup/Dedup, DeMorgan, DNeg at every position; invariants: every action preserves the polynomial (canonical map monomial -> "
+        "coefficient, truncated subtraction an opaque atom) resp. the member set and the truth table. The dump of the reachable states (orbits "
+        "= classes) is replayed through nat.norm_full, int_norm_conv, real_norm_conv, auto_conv, proplogic norm_full/nnf/sort_conj/sort_disj, "
+        "logic conj_norm/disj_norm; TLC-generated terms with binders (spec/C10_Terms.tla) through 53 traversal/rewriting combinator expressions "
+        "incl. conditional rules; plus seeded random larger orbits. TLC (spec/C10_ConvTrace.tla) evaluates on every call the conversion contract "
+        "(equation, lhs = input, hyps from conds), checker acceptance of the exported proof, eval = proof term, own-error-only, exact value "
+        "preservation, idempotence, and canonicity on every orbit.",
+        "Trusted: TLC/SANY, laws in spec/C10_Laws.tla, codec, the syntactic reader of TLC's state dump, CPython. Canonicity/idempotence demanded "
+        "only of the nat, real and conj/disj normalisers (integers, nnf: divergence only); value differences involving opaque atoms are "
+        "divergences; checker soundness is C01/C02.",
+        "TLA+ rearrangement machine + TLC model checking; state dump as vectors; trace validation of the real conversions against the laws",
+        "6/C10"),
 }
 
 NOT_YET = {}
